@@ -11,7 +11,7 @@ from ..astutil import call_attr, calls_in, unparse, walk_local
 from ..cfg import CFG
 from ..dataflow import resolved_text
 from ..report import Finding, Report
-from ..srcindex import AnalysisError, Index
+from ..srcindex import AnalysisError, Index, raw_funcs
 
 IA = "xdsl/interpreters/arith.py"
 AR = "xdsl/dialects/arith.py"
@@ -36,6 +36,66 @@ def impls(idx: Index):
                 if isinstance(dec, ast.Call) and unparse(dec.func) == "impl" and dec.args:
                     out.append((unparse(dec.args[0]).split(".")[-1], d))
     return out
+
+
+def check_scopes(idx: Index, rep: Report) -> None:
+    """Every scope an interpreter function pushes is gone when the function returns: the environment is restored from
+    a snapshot taken before the first push, or each push is paired with a pop at the same loop depth.  A function that
+    pushes once per executed block and pops once at the end leaks a scope per extra block; the leaked scopes shadow
+    the caller's bindings of the same SSA values after a recursive call returns."""
+    r = rep.rule("C15.R8", "scopes pushed while running a region are all discarded on return (snapshot restore, or push/pop paired at the same loop depth)", floor=1)
+    from ..astutil import parent_map
+
+    n_fn = 0
+    for rel in ("xdsl/interpreter.py", "xdsl/interpreters/pdl.py"):
+        mi = idx.module(rel)
+        for f in raw_funcs(mi):
+            pushes = [c for c in calls_in(f.node) if call_attr(c) == "push_scope"]
+            if not pushes or f.name in ("push_scope", "pop_scope"):
+                continue
+            n_fn += 1
+            cfg = CFG(f.node)
+            pm = parent_map(f.node)
+
+            def loop_of(n_):
+                while id(n_) in pm:
+                    n_ = pm[id(n_)]
+                    if isinstance(n_, (ast.For, ast.While)):
+                        return n_
+                return None
+
+            pops = [c for c in calls_in(f.node) if call_attr(c) == "pop_scope"]
+            recv = unparse(pushes[0].func.value)  # type: ignore[attr-defined]
+            snaps = [s_ for s_ in walk_local(f.node) if isinstance(s_, ast.Assign) and len(s_.targets) == 1 and isinstance(s_.targets[0], ast.Name) and unparse(s_.value) == f"{recv}._ctx"]
+            restores = [s_ for s_ in walk_local(f.node) if isinstance(s_, ast.Assign) and unparse(s_.targets[0]) == f"{recv}._ctx" and isinstance(s_.value, ast.Name) and any(unparse(sn.targets[0]) == s_.value.id for sn in snaps)]
+            for c in pushes:
+                inst = f"{f.fq}:{c.lineno - f.node.lineno}"
+                n_push = cfg.node_of(c)
+                snap_ok = False
+                for rs in restores:
+                    sn = next(sn for sn in snaps if unparse(sn.targets[0]) == rs.value.id)  # type: ignore[attr-defined]
+                    before = cfg.node_of(sn) not in cfg.reachable(n_push) and loop_of(sn) is None
+                    nr = cfg.node_of(rs)
+                    # every normal way out of the function after a push passes the restore
+                    covers = cfg.path_avoiding(n_push, cfg.exit, lambda x, nr=nr: x.id == nr, follow_exc=False) is None
+                    if before and covers and loop_of(rs) is None:
+                        snap_ok = True
+                lp = loop_of(c)
+                pair_ok = False
+                same = [p_ for p_ in pops if loop_of(p_) is lp]
+                if same:
+                    pn = {cfg.node_of(p_) for p_ in same}
+                    target = cfg.node_of(lp) if lp is not None else cfg.exit
+                    pair_ok = cfg.path_avoiding(n_push, target, lambda x: x.id in pn, follow_exc=False) is None
+                if snap_ok:
+                    r.ok(inst, f"{f.module.relpath}:{c.lineno} environment restored from a snapshot taken before the first push")
+                elif pair_ok:
+                    r.ok(inst, f"{f.module.relpath}:{c.lineno} push paired with pop at the same loop depth")
+                else:
+                    where = "inside a loop" if lp is not None else "here"
+                    r.fail(inst, Finding("C15.R8", f.fq, "scope-leak", f"`{unparse(c)}` ({where}) is neither undone by restoring a snapshot of the environment taken before it nor paired with a pop_scope at the same loop depth ({len(pops)} pop_scope call(s), {len(restores)} snapshot restore(s) in the function): a region that executes k blocks leaves k-1 scopes behind, which shadow the caller's values after a recursive call", f"{f.module.relpath}:{c.lineno}"))
+    if n_fn == 0:
+        raise AnalysisError("no function pushing an interpreter scope found")
 
 
 def check(idx: Index, rep: Report, tier: str) -> str:
@@ -250,6 +310,7 @@ def check(idx: Index, rep: Report, tier: str) -> str:
             else:
                 raise AnalysisError(f"{lf.fq}: loop shape `{unparse(lp).splitlines()[0]}` not recognised")
 
+    rep.run(check_scopes, idx, rep)
     return (
         "Derivation / table rules over xdsl/interpreters/arith.py (+ cf, scf): returned integers pass a width normaliser "
         "with the result type's bit-width, signedness-sensitive operations normalise both operands, cmpi/cmpf cases match "
